@@ -264,6 +264,82 @@ theorem C11_name_unguarded_truncates (n : Nat) (name : Bytes) (h : n < name.leng
     nameWrite false n name = .ok (name.take n) := by
   simp [nameWrite, packStr_truncates n name (Nat.le_of_lt h)]
 
+
+/-! ## record level: reader ∘ writer = id for the formats of the current source -/
+
+/-- **Every lump record.** For every (record, layout) pair extracted from `bsp.py`: whatever the
+writer packs with its format string(s), the reader's format string(s) unpack to the same values. -/
+theorem C11_reader_inverts_writer (p : Pair) (hp : p ∈ pairs) (fr fw : Fmt)
+    (hr : wireCat p.reader = some fr) (hw : wireCat p.writer = some fw) (hne : p.writer.isEmpty = false)
+    (vs : List Val) (bs : Bytes) (h : pack fw vs = .ok bs) :
+    unpack fr bs = .ok (canon fw vs) ∧ intsFit fw vs = true := by
+  have hall := List.all_eq_true.mp C11_gen_reader_eq_writer p hp
+  simp only [pairOK, hr, hw, hne, Bool.false_or, beq_iff_eq] at hall
+  exact ⟨unpack_pack_of_normalize_eq hall h, pack_intsFit h⟩
+
+/-- **Flat lumps** (planes, vertexes, cubemaps, edges, texinfo records, … — any lump that is an
+array of one record): `iter_unpack(reader format)` of the joined `pack(writer format)` records
+returns the records. -/
+theorem C11_flat_lump (p : Pair) (hp : p ∈ pairs) (fr fw : Fmt)
+    (hr : wireCat p.reader = some fr) (hw : wireCat p.writer = some fw) (hne : p.writer.isEmpty = false)
+    (hs : 0 < size fw) (recs : List (List Val)) (bs : Bytes)
+    (h : recsWrite fw recs = .ok bs) (hc : ∀ r ∈ recs, canonical fw r = true) :
+    recsRead fr bs = .ok recs := by
+  have hall := List.all_eq_true.mp C11_gen_reader_eq_writer p hp
+  simp only [pairOK, hr, hw, hne, Bool.false_or, beq_iff_eq] at hall
+  unfold recsWrite at h
+  split at h
+  · rename_i b hb
+    injection h with h; subst h
+    unfold recsRead
+    rw [unpackMany_of_normalize_eq hall, C11_struct_records fw hs recs _ hb hc]
+  · cases h
+
+/-- the planes lump: additionally the reader insists on a valid `PlaneType` -/
+theorem C11_planes (fmt : Fmt) (hs : 0 < size fmt) (recs : List (List Val)) (bs : Bytes)
+    (h : recsWrite fmt recs = .ok bs) (hc : ∀ r ∈ recs, canonical fmt r = true)
+    (ht : recs.all planeTypeOk = true) : planesRead fmt bs = .ok recs := by
+  unfold recsWrite at h
+  split at h
+  · rename_i b hb
+    injection h with h; subst h
+    simp only [planesRead, recsRead, C11_struct_records fmt hs recs _ hb hc, ht, if_true]
+  · cases h
+
+/-- **Static-prop record, every version.** For each member of `StaticPropVersion`: the record the
+writer produces has exactly `version.size` bytes and the reader's segments decode it to the values
+written. -/
+theorem C11_prop_record (v : PropVersion) (hv : v ∈ propVersions)
+    (rs ws : List (PropCond × Fmt)) (hrs : segWire propReaderSegs = some rs) (hws : segWire propWriterSegs = some ws)
+    (fr fw : Fmt) (hr : propRecord v rs = some fr) (hw : propRecord v ws = some fw)
+    (vs : List Val) (bs : Bytes) (h : pack fw vs = .ok bs) :
+    unpack fr bs = .ok (canon fw vs) ∧ bs.length = v.size := by
+  have hall := List.all_eq_true.mp C11_gen_prop_versions.1 v hv
+  simp only [propVersionOK, hrs, hws, hr, hw, Bool.and_eq_true, beq_iff_eq] at hall
+  exact ⟨unpack_pack_of_normalize_eq hall.1 h, by rw [pack_length h]; exact hall.2⟩
+
+/-- **Texture-name table.** NUL-free names shorter than the writer's limit are written (with
+de-duplicated, possibly overlapping offsets) and read back exactly; any longer name is rejected. -/
+theorem C11_textures (names : List Bytes) :
+    ((∀ n ∈ names, n.length < textureWriteLimit ∧ (0 : UInt8) ∉ n) →
+      ∃ data offs, texWrite textureWriteLimit names = .ok (data, offs) ∧
+        texRead textureReadLimit data offs = .ok names) ∧
+    ((∃ n ∈ names, textureWriteLimit ≤ n.length) → texWrite textureWriteLimit names = .error .tooLong) := by
+  constructor
+  · intro hn
+    obtain ⟨data, offs, h1, h2⟩ := texFold_spec textureWriteLimit names [] [] [] (fun n h => (hn n h).1) trivial
+    refine ⟨data, offs, h1, texRead_of_inv textureReadLimit data offs names (fun n h => ⟨?_, (hn n h).2⟩) (by simpa using h2)⟩
+    exact Nat.lt_of_lt_of_le (hn n h).1 C11_gen_texture_limits.1
+  · intro h
+    exact texFold_too_long textureWriteLimit names _ h
+
+/-- **Visibility lump.** For `n` clusters with rows of `ceil(n/8)` bytes: if the writer succeeds
+(offsets fit `int32`), the reader returns the same PVS and PAS rows. -/
+theorem C11_visibility (pvs pas : List Bytes) (data : Bytes)
+    (hp : ∀ r ∈ pvs, r.length = (pvs.length + 7) / 8) (ha : ∀ r ∈ pas, r.length = (pvs.length + 7) / 8)
+    (h : visWrite pvs pas = .ok data) : visRead data = .ok (pvs, pas) :=
+  vis_roundtrip pvs pas data hp ha h
+
 /-! ## non-vacuity -/
 
 instance {ε α : Type} [DecidableEq ε] [DecidableEq α] : DecidableEq (Except ε α) := fun a b =>
@@ -282,5 +358,11 @@ example : rleEncode [1, 0, 0, 0, 2] = [1, 0, 3, 2] := by decide +kernel
 example : (rleEncode (List.replicate 300 0)) = [0, 255, 0, 45] := by decide +kernel
 example : rleDecode [1, 0, 3, 2, 9, 9] 0 (some 40) = .ok [1, 0, 0, 0, 2] := by decide +kernel
 example : rleDecode [5, 0] 0 none = .error .truncated := by decide +kernel
+example : visWrite [[1, 0]] [[0, 0]] = .ok [1, 0, 0, 0, 12, 0, 0, 0, 15, 0, 0, 0, 1, 0, 1, 0, 2] := by decide +kernel
+example : texWrite 128 [[97, 98], [98], [97, 98]] = .ok ([97, 98, 0], [0, 1, 0]) := by decide +kernel
+example : (pairs.find? (fun p => p.record == "planes")).map (fun p => wireCat p.reader)
+    = some (some [.f32, .f32, .f32, .f32, .i32]) := by decide +kernel
+example : (propVersions.map (fun v => (segWire propWriterSegs).bind (fun w => (propRecord v w).map size)))
+    = propVersions.map (fun v => some v.size) := by decide +kernel
 
 end C11
